@@ -4080,7 +4080,7 @@ static Type check_statement_impl(TypeChecker *tc, ASTNode *stmt) {
                     for (int p = 0; p < stmt->as.function.param_count; p++) {
                         Value dummy_val = {0};
                         env_define_var(tc->env, stmt->as.function.params[p].name,
-                                      stmt->as.function.params[p].type, true, dummy_val);
+                                      stmt->as.function.params[p].type, false /* parameters are immutable */, dummy_val);
                         /* Located like the parameters of a top-level function: a symbol without a
                          * position loses against any located outer symbol of the same name when
                          * names are looked up by position, i.e. it would not shadow it. */
